@@ -227,6 +227,17 @@ def R2():   # HEAD switched to another branch under a chained rename
         shutil.rmtree(root, ignore_errors=True)
 
 
+def R3():   # a ref-map left by an earlier run survived a run that renamed nothing
+    root, repo = new_repo()
+    try:
+        commit(repo, {'a': 'a'}, 'c1'); sh(repo, 'git tag v1')
+        rc1, _, _ = tool(repo, '--force', '--tag-rename', 'v:rel-')
+        rc2, _, _ = tool(repo, '--force')
+        return rc1 != 0 or rc2 != 0 or os.path.exists(os.path.join(repo, '.git/filter-repo/ref-map'))
+    finally:
+        shutil.rmtree(root, ignore_errors=True)
+
+
 def F12():  # file replaced by a directory of the same name in one commit: the directory's files are lost
     root, repo = new_repo()
     try:
